@@ -283,9 +283,12 @@ def run(chk: harness.Check):
             for b, t in g.calls():
                 used = set()
                 for a in t.get("args", []):
-                    for x in walk(resolve(g, a)):
-                        if x[0] == "agg" and x[1] == "closure" and x[2] in preds:
-                            used.add(x[2])
+                    x = resolve(g, a)
+                    while x[0] == "ref":
+                        x = x[1]
+                    # the closure handed to THIS call (not one buried in the lineage of its receiver)
+                    if x[0] == "agg" and x[1] == "closure" and x[2] in preds:
+                        used.add(x[2])
                 n += len(used)
         chk.expect(n >= 3, "C12.D2-limits", "lookup|max_den filters", f"{lk.file}:{lk.line}",
                    f"FractionLookupTable::lookup compares candidates against max_den in {n} place(s), expected the exact-hit test and both neighbour searches (3)",
